@@ -13,14 +13,14 @@ PROPS = {
     "C02": dict(
         title="tree constraints (eq/diseq programs)",
         props_module="PvModel.Props.C02",
-        props_extra=["PvModel.Props.C02Program", "PvModel.Props.C02Decide", "PvModel.Props.C02Rel", "PvModel.Props.C02Answer"],
+        props_extra=["PvModel.Props.C02Program", "PvModel.Props.C02Decide", "PvModel.Props.C02Rel", "PvModel.Props.C02Answer", "PvModel.Props.C02Query"],
         rule="pure tree programs (1-6 atoms ==/!= over <=2 query + <=3 hidden variables, nested conde/fresh, compounds), each run as written and "
              "under random permutations of every conjunction; targets: subsuming pairs, disequalities simplified/violated by later equalities; "
              "observable: canonical answer terms + truth table of the reported constraints over an 8-element universe; non-trivial = an answer "
              "carries constraints or there are >=2 answers; distinct = distinct case lines",
         trusted=SEARCH_TRUST,
         assumptions=["the oracle decides existence of hidden-variable values with an independent Robinson unifier (disequalities over an infinite universe)"],
-        open=["C02_reported_answer (Props/C02Answer.lean) closes the step from the semantic answer to the REPORTED one for lists of ==/!= atoms; for whole programs it applies to each delivered state (C02_program_exact: every delivered state is the state of one path); `reify(x)` as a GOAL on the engine delivers exactly that reified state from a tree state: PROVED (C02_reify_goal); the composition with the `fresh(__query__)` wrapper of the query into one statement about `queryG` is definitional glue not stated as a theorem"],
+        open=["C02_reported_answer (Props/C02Answer.lean) closes the step from the semantic answer to the REPORTED one for lists of ==/!= atoms; for whole programs it applies to each delivered state (C02_program_exact: every delivered state is the state of one path); `reify(x)` as a GOAL on the engine delivers exactly that reified state from a tree state: PROVED (C02_reify_goal); the composition with the `fresh(__query__)` wrapper into ONE statement about `queryG`: PROVED (Props/C02Query.lean: C02_query_program, C02_query_tree, C02_query_exact — the engine terminates on the query goal and a tuple is an instance of a reported answer iff it is the query value of a solution of one path; C02_query_exact_checked discharges the hypotheses by one Boolean check); left assumed: the model's two bounds (no path runs out of unification fuel; the walked query term is within force_ans's depth bound forceFuel = 1000) and scoping — that a path state binds __query__ to the list of query terms (postAll_unified, Proofs/QueryBind.lean) and that force_ans finishes on a state without domains (forceAns_finishes, Proofs/ForceTot.lean) are proved"],
     ),
     "C05": dict(
         title="depth-first search order",
@@ -96,12 +96,12 @@ PROPS = {
     "C17": dict(
         title="CLP(FD) labelling completeness and uniqueness",
         props_module="PvModel.Props.C17",
-        props_extra=["PvModel.Props.C17Label", "PvModel.Props.C17Enforce"],
+        props_extra=["PvModel.Props.C17Label", "PvModel.Props.C17Enforce", "PvModel.Props.C17Query"],
         rule="the C16 generator; oracle: brute force over the window projected on the query variables — every solution is returned exactly once per "
              "disjunction path it satisfies; non-trivial = >1 solution or >=1 answer; distinct = distinct case lines",
         trusted=SEARCH_TRUST,
         assumptions=[],
-        open=["distinctfd on an OPEN-TAILED list (the tail variable is taken for an element) is outside the global exactness theorems (CstOK requires a proper list term)", "the `onceo` over the hidden variables: PROVED on the engine (C17_hidden_onceo, Props/C17Enforce.lean: at most one state, a closed one when the labelled state has a solution, none when it has none; hypothesis: the peek fuel lets the labelling drain); the whole of enforce_constraints_fd on the engine: PROVED (C17_enforce_exactly_once: one closed state per block of the query-term labelling that has a solution, none for the others); reification of FD answers, the `fresh(__query__)` wrapper and tree disequalities mixed into FD states are carried by the correspondence"],
+        open=["distinctfd on an OPEN-TAILED list (the tail variable is taken for an element) is outside the global exactness theorems (CstOK requires a proper list term)", "the `onceo` over the hidden variables: PROVED on the engine (C17_hidden_onceo, Props/C17Enforce.lean: at most one state, a closed one when the labelled state has a solution, none when it has none; hypothesis: the peek fuel lets the labelling drain); the whole of enforce_constraints_fd on the engine: PROVED (C17_enforce_exactly_once: one closed state per block of the query-term labelling that has a solution, none for the others); reification of FD answers and the `fresh(__query__)` wrapper: PROVED (C17_query_program / C17_query_exactly_once, Props/C17Query.lean: the answers of an FD query are, as a multiset, the reified closed states of C17_enforce_exactly_once summed over the paths; C17_path_state_invariants: every unpoisoned path state of a query from the empty state has the labelling invariants; NonVacuity section instantiates every hypothesis); tree disequalities mixed into FD states are carried by the correspondence"],
     ),
     "C19": dict(
         title="CLP(Z) plusz/timesz",
@@ -129,7 +129,7 @@ PROPS = {
     "C04": dict(
         title="reordering conjuncts/disjuncts (answer multiset)",
         props_module="PvModel.Props.C04",
-        props_extra=["PvModel.Props.C04Rel", "PvModel.Props.C04Count", "PvModel.Props.C17Enforce"],
+        props_extra=["PvModel.Props.C04Rel", "PvModel.Props.C04Count", "PvModel.Props.C17Enforce", "PvModel.Props.C17Query"],
         rule="terminating programs, half pure tree (==, !=, fresh, nested conde) and half FD (the C16 generator incl. conde and structured query "
              "terms); each run as written and under random permutations of every conjunction and every clause list (all permutations of a "
              "top-level conjunction of <=3 goals); answers compared as multisets of (canonical terms, truth table of the reported constraints) / "
@@ -137,7 +137,7 @@ PROPS = {
              "model; non-trivial = >=2 answers; distinct = distinct case lines",
         trusted=SEARCH_TRUST,
         assumptions=[],
-        open=["reordering inside programs with COMMITTED CHOICE is checked by the oracle only (programs with relation calls: C04_rel_equiv / C04_rel_conj_comm / C04_rel_alt_comm)", "FD answer MULTISETS: per path, C04_fd_answer_values_perm (with C17_answer_values) shows the answer values after labelling + the onceo over the hidden variables are permutations of each other for two states describing the same valuations; the sum over the paths of a program and reification are carried by the correspondence"],
+        open=["reordering inside programs with COMMITTED CHOICE is checked by the oracle only (programs with relation calls: C04_rel_equiv / C04_rel_conj_comm / C04_rel_alt_comm)", "FD answer MULTISETS: per path, C04_fd_answer_values_perm (with C17_answer_values) shows the answer values after labelling + the onceo over the hidden variables are permutations of each other for two states describing the same valuations; the sum over the paths of a program and reification: PROVED (Props/C17Query.lean: C17_query_program, C17_query_count, C04_fd_query_reorder for reordered clauses); reordered CONJUNCTS of FD programs at the level of the whole query are carried by the correspondence"],
     ),
     "C09": dict(
         title="query iteration: lazy, fused, deterministic",
@@ -188,7 +188,7 @@ PROPS = {
              "(known finding D20 otherwise); non-trivial = >=2 answers; distinct = distinct case lines",
         trusted=SEARCH_TRUST,
         assumptions=[],
-        open=["soundness, completeness (all six recursive relations and cons/first/rest/empty, every mode) the multiplicities of member / member1 and the functional mode of append (first argument of known length: at most one answer, C24_append_functional) are proved (C24Sem, C24Count, C24First); the multiplicities of the enumerating modes of append and of rember / permute / distinct are carried by the correspondence and the Vec-based oracle; every theorem carries the FUEL caveat of the model"],
+        open=["soundness, completeness (all six recursive relations and cons/first/rest/empty, every mode) the multiplicities of member / member1 and the functional mode of append (first argument of known length: at most one answer, C24_append_functional) are proved (C24Sem, C24Count, C24First); the enumerating mode of append (third argument of known length: one answer per realisable split position, none twice, at most n+1: C24_append_one_per_split, C24_append_splits_disjoint) is proved too; the multiplicities of rember / permute / distinct are carried by the correspondence and the Vec-based oracle; every theorem carries the FUEL caveat of the model"],
     ),
     "C20": dict(
         title="compound terms (unification, disequality, reification, FD labelling)",
